@@ -274,10 +274,33 @@ def early_capture(rng, recursion):
 
 
 # ------------------------------------------------------------------ running
-def run_checker(env, name):
-    """nsmodel langc04 on the model input written by langrun.run_model -> dict id -> list of flags"""
-    inp = os.path.join(env.work, name + ".model.in")
+def run_model_safe(env, name, recs, order, depth=0):
+    """langrun.run_model, tolerant of a model run that exhausts the OCaml stack on one program
+    (e.g. strings doubled in a loop): the batch is split until the offending case is alone; that
+    case gets no model record and is counted as inconclusive."""
+    try:
+        return langrun.run_model(env, name, recs, order)
+    except RuntimeError:
+        if len(order) <= 1:
+            return {}
+        mid = len(order) // 2
+        out = run_model_safe(env, "%s.l%d" % (name, depth), recs, order[:mid], depth + 1)
+        out.update(run_model_safe(env, "%s.r%d" % (name, depth), recs, order[mid:], depth + 1))
+        return out
+
+
+def run_checker(env, name, recs=None, order=None):
+    """nsmodel langc04 on the `ast` lines of a batch -> dict id -> list of flags"""
+    inp = os.path.join(env.work, name + ".c04.in")
     outp = os.path.join(env.work, name + ".c04")
+    if recs is not None:
+        with open(inp, "w") as f:
+            for cid in order:
+                r = recs.get(cid)
+                if r and r.get("ast"):
+                    f.write("case %s\n%s\nend %s\n" % (cid, r["ast"], cid))
+    else:
+        inp = os.path.join(env.work, name + ".model.in")
     rc, out = common.sh([common.NSMODEL, "langc04", inp, outp], timeout=900)
     if rc != 0:
         raise RuntimeError("nsmodel langc04 failed: %s" % out[-500:])
@@ -300,8 +323,8 @@ def run_batch(env, name, cases, model=True):
     order = [c for c, _ in cases]
     mrecs, lex = {}, {}
     if model:
-        mrecs = langrun.run_model(env, name, recs, order)
-        lex = run_checker(env, name)
+        mrecs = run_model_safe(env, name, recs, order)
+        lex = run_checker(env, name, recs, order)
     return recs, mrecs, lex
 
 
@@ -460,6 +483,8 @@ def correspond(env, searching=False, model=True):
             evaluations += 1
             m = mrecs.get(cid)
             fl = lex.get(cid)
+            if model and m is None:
+                hist["model_inconclusive"] = hist.get("model_inconclusive", 0) + 1
             # model tie 1: implementation vs run_impl
             if model:
                 st, det = langcheck.compare(r, m, cfgs=("nn",))
